@@ -1,0 +1,31 @@
+//go:build verif
+
+package appdb
+
+import (
+	"sync"
+
+	db "github.com/tendermint/tm-db"
+)
+
+var verifDBs sync.Map // dir -> db.DB
+
+// VerifRegisterDB makes NewAppDB(home) use the given DB instead of opening one by backend name.
+// dir is homeDir + "/data". Registering nil removes the entry.
+func VerifRegisterDB(dir string, d db.DB) {
+	if d == nil {
+		verifDBs.Delete(dir)
+		return
+	}
+	verifDBs.Store(dir, d)
+}
+
+func verifOpenDB(name, dir string) db.DB {
+	if v, ok := verifDBs.Load(dir); ok {
+		return v.(db.DB)
+	}
+	return nil
+}
+
+// VerifNewAppDB builds an AppDB directly over a given DB handle (read-only observers in the simulator).
+func VerifNewAppDB(d db.DB) *AppDB { return &AppDB{db: d} }
